@@ -202,7 +202,7 @@ class XPathMap(XPathFunction):
         if len(args) != 1 or not isinstance(args[0], AnyAtomicType):
             if isinstance(context, XPathSchemaContext):
                 return []
-            raise self.error('XPST0003', 'exactly one atomic argument is expected')
+            raise self.error('XPTY0004', 'exactly one atomic argument is expected')
 
         _map: ta.MapDictType
         key = args[0]
